@@ -622,6 +622,33 @@ func classes() []class {
 			wg.Wait()
 		}
 	})
+	// a client that gives up: batch writes (and searches) whose deadline ends while they are being served
+	add("any-order:requests-whose-caller-gives-up-while-they-are-served", func(e *env) {
+		for n := 0; n < 80 && e.s.Alive(); n++ {
+			var items []*pb.BatchItem
+			for i := 0; i < 100; i++ {
+				items = append(items, &pb.BatchItem{Id: hx.Id(700000 + n*100 + i).Bytes(), Value: vec(float32(i), float32(n), 1, 2)})
+			}
+			d := time.Duration(300+n*n*7) * time.Microsecond // 0.3 ms .. 45 ms
+			c, f := context.WithTimeout(context.Background(), d)
+			switch n % 4 {
+			case 0, 1:
+				e.data.BatchInsert(c, &pb.BatchRequest{DatasetId: e.dsId, Items: items})
+			case 2:
+				e.data.BatchUpdate(c, &pb.BatchRequest{DatasetId: e.dsId, Items: items})
+			default:
+				e.data.BatchRemove(c, &pb.BatchRequest{DatasetId: e.dsId, Items: items})
+			}
+			f()
+			c2, f2 := context.WithTimeout(context.Background(), d/4+100*time.Microsecond)
+			drain(e.srch.Search(c2, &pb.SearchRequest{DatasetId: e.dsId, Query: vec(1, 2, 3, 4), K: 50}))
+			f2()
+			c3, f3 := context.WithTimeout(context.Background(), d/4+100*time.Microsecond)
+			e.dm.GetDatasetSize(c3, &pb.GetDatasetRequest{DatasetId: e.dsId})
+			f3()
+		}
+		time.Sleep(300 * time.Millisecond) // whatever was still running on the server's side ends
+	})
 	// nothing hostile at all: the baseline of the rig
 	add("baseline:valid-requests-only", func(e *env) {
 		c, f := e.ctx()
